@@ -20,6 +20,16 @@ CLAIMS = {
          "data/old values, terms never enter boundary rows (Props/C04.v); the solve suite evaluates the residual of the MODEL system inside Coq at "
          "the real solver's answer for random term lists; probes: identity of the returned object, external solver receives the identical system, "
          "solveMatrixPDE agreement", "DESIGN.md 4 (C04)"),
+ "C10": ("Theorems: sizes = face differences, ghost sizes repeat, centres = midpoints, (N,L) form, coded volumes in geometric form per class, radial/"
+         "Cartesian sums telescope to the domain size (generic field); over R: positivity, SphericalGrid1D volume = full shell, SphericalGrid3D volume "
+         "REFUTED (known finding, pinned by a test); labels by finite enumeration over tables regenerated from face.py/mesh.py (Props/C10.v); mesh suite; "
+         "per-cell geometric-volume and label probes", "DESIGN.md 4 (C10)"),
+ "C11": ("Theorems: constants, linear exactness on any spacing, donor-cell rule (generic field); over R: every mean lies between its two neighbours and "
+         "harmonic <= geometric <= arithmetic with the same width weights (weighted AM-GM from 1+x<=exp x) (Props/C11.v); means suite on all classes incl. "
+         "zeros; probes incl. geometricMean closed form", "DESIGN.md 4 (C11)"),
+ "C17": ("Theorems: under a change of the length unit every diffusion/central/upwind stencil coefficient of the rescaled problem is 1/T times the original, "
+         "boundary a/h unchanged, ghost values scale with K; linearity of each term in its coefficient field (Props/C17.v). The assembly 'K*x solves the "
+         "rescaled system' for arbitrary term lists is PARTIAL in Coq (row-level) and exercised on the real code in two unit systems over +-6 decades", "DESIGN.md 4 (C17)"),
  "C12": ("Theorems: backward-Euler row identity, steady <-> fixed point for every dt and alpha, increment identity behind dt->0/inf, explicit step "
          "definition (Props/C12.v); limit statements themselves are partial (identities only); suites solve/explicit; dt sweeps over 12 decades on the real code", "DESIGN.md 4 (C12)"),
  "C13": ("Theorems about the limiter definitions REGENERATED from utilities.fluxLimiter / advection._fsign on every run (published closed form "
